@@ -1,0 +1,79 @@
+//go:build verif
+
+package parse
+
+// Contracts for the deductive verification of this package (see /verif/DESIGN.md).
+// This file is comment-only: it is compiled only with the build tag "verif" and adds no code.
+// Syntax: Gobra-style //@ lines, keyed by function and by loop ordinal (never by line number).
+
+//@ func (*flagParser).parseStringDQuote
+//@ props C07
+//@ requires p != nil
+//@ requires len(p.input) > 0
+//@ modifies p.input
+//@ ensures len(p.input) <= len(old(p.input))
+//@ loop 1 invariant 1 <= off && off <= len(in)
+//@ loop 1 decreases len(in) - off
+
+//@ func (*flagParser).parseStringSQuote
+//@ props C07
+//@ requires p != nil
+//@ requires len(p.input) > 0
+//@ modifies p.input
+//@ ensures len(p.input) <= len(old(p.input))
+
+//@ func (*flagParser).parseNonQuotedString
+//@ props C07
+//@ requires p != nil
+//@ modifies p.input
+//@ ensures len(p.input) <= len(old(p.input))
+
+//@ func (*flagParser).parsePrimitive
+//@ props C07
+//@ requires p != nil
+//@ modifies p.input
+//@ ensures len(p.input) <= len(old(p.input))
+
+//@ func (*flagParser).expectChar
+//@ props C07
+//@ requires p != nil
+//@ modifies p.input
+//@ ensures len(p.input) <= len(old(p.input))
+
+//@ func (*flagParser).ignoreWhitespace
+//@ props C07
+//@ requires p != nil
+//@ modifies p.input
+//@ ensures len(p.input) <= len(old(p.input))
+
+//@ func (*flagParser).parseValue
+//@ props C07
+//@ requires p != nil
+//@ modifies p.input
+//@ ensures len(p.input) <= len(old(p.input))
+
+//@ func (*flagParser).parseKey
+//@ props C07
+//@ requires p != nil
+//@ modifies p.input
+//@ ensures len(p.input) <= len(old(p.input))
+
+//@ func (*flagParser).parseArray
+//@ props C07
+//@ requires p != nil
+//@ requires len(p.input) > 0
+//@ modifies p.input
+//@ ensures len(p.input) <= len(old(p.input))
+//@ loop 1 invariant len(p.input) <= len(old(p.input))
+
+//@ func (*flagParser).parseObj
+//@ props C07
+//@ requires p != nil
+//@ requires len(p.input) > 0
+//@ modifies p.input
+//@ ensures len(p.input) <= len(old(p.input))
+//@ loop 1 invariant len(p.input) <= len(old(p.input))
+
+//@ func parseBoolValue
+//@ trusted
+//@ pure
